@@ -72,9 +72,87 @@ fn run_regressions(case: u64, ev: &mut Ev) {
     }
 }
 
+/// Very deep list-like trees on an ordinary 2 MiB thread stack (the worker threads of the harness have
+/// 64 MiB, which would hide recursion that grows with the depth of the tree): a chain of `depth` decisions
+/// built by from_poly whose second constraint contradicts the first, so that infeasible_elimination meets
+/// an infeasible node with a subtree `depth - 2` levels deep (counted, skipped and removed), followed by the
+/// usual operations. Everything must complete; a stack overflow aborts the worker and is attributed to this
+/// case through the write-ahead marker.
+fn run_deep_chain(case: u64, rng: &mut Rng, ev: &mut Ev, depth: usize) {
+    let contradiction_at = 1 + rng.below(3);
+    let mut mat: Vec<Vec<f64>> = Vec::with_capacity(depth);
+    let mut bias: Vec<f64> = Vec::with_capacity(depth);
+    for k in 0..depth {
+        if k == contradiction_at {
+            mat.push(vec![-1.0]);
+            bias.push(-1.0); // x >= 1, contradicts x <= 0 below
+        } else {
+            mat.push(vec![1.0]);
+            bias.push(if k == 0 { 0.0 } else { 1.0 + (k % 7) as f64 });
+        }
+    }
+    let p = Aff { mat, bias };
+    let ft = Aff { mat: vec![vec![2.0]], bias: vec![1.0] };
+    let ff = Aff { mat: vec![vec![-1.0]], bias: vec![3.0] };
+    ev.evaluations += 1;
+    let desc = json!({"deep_chain": {"depth": depth, "contradiction_at_row": contradiction_at, "thread_stack_bytes": 2 << 20}});
+    let (poly, ftl, ffl) = (p.to_poly(), ft.to_lib(), ff.to_lib());
+    crate::util::wal(&format!("case={} deep chain of depth {} on a 2 MiB stack", case, depth));
+    let handle = std::thread::Builder::new().stack_size(2 << 20).spawn(move || -> Result<(usize, usize, Option<Vec<f64>>, Option<Vec<f64>>), String> {
+        let r = std::panic::catch_unwind(std::panic::AssertUnwindSafe(|| {
+            let mut t = AffTree::<2>::from_poly(poly, ftl, Some(&ffl)).map_err(|e| format!("from_poly: {}", e))?;
+            let len0 = t.len();
+            let _ = t.depth();
+            let _ = t.num_terminals();
+            t.infeasible_elimination();
+            let mut a = Aff::identity(1);
+            a.bias[0] = 1.0;
+            t.apply_func(&a.to_lib());
+            t.reduce();
+            let g = affinitree::distill::schema::partial_ReLU(1, 0);
+            t.compose::<true, false>(&g);
+            let v1 = t.evaluate(&crate::gen::arr1(&[-2.0])).map(|v| v.to_vec());
+            let v2 = t.evaluate(&crate::gen::arr1(&[0.5])).map(|v| v.to_vec());
+            let u = t.clone();
+            drop(t);
+            Ok::<_, String>((len0, u.len(), v1, v2))
+        }));
+        match r {
+            Ok(x) => x,
+            Err(e) => Err(format!("panic: {}", e.downcast_ref::<String>().cloned().or_else(|| e.downcast_ref::<&str>().map(|s| s.to_string())).unwrap_or_default())),
+        }
+    });
+    let res = match handle {
+        Ok(h) => h.join().unwrap_or_else(|_| Err("thread died".into())),
+        Err(_) => {
+            ev.skip("could not spawn the small-stack thread");
+            return;
+        }
+    };
+    match res {
+        Err(e) => ev.violation(case, "c04:deep-chain", "", json!({"case": desc, "problem": e})),
+        Ok((len0, len1, v1, v2)) => {
+            // x = -2: inside x <= 0, fails x >= 1 -> else branch -x + 3 = 5, +1 = 6, ReLU -> 6
+            // x = 0.5: fails x <= 0 -> else branch 2.5, +1 = 3.5
+            if len0 != 2 * depth + 1 || v1 != Some(vec![6.0]) || v2 != Some(vec![3.5]) {
+                ev.violation(case, "c04:deep-chain:function", "", json!({"case": desc, "len_before": len0, "len_after": len1, "values": [v1, v2], "expected": [[6.0], [3.5]]}));
+                return;
+            }
+            ev.inc("deep_chains_survived_on_a_2MiB_stack");
+            ev.count("deep_chain_nodes", len0 as u64);
+        }
+    }
+}
+
 pub fn run_case(ctx: &Ctx, case: u64, ev: &mut Ev) {
     if case == 0 {
         run_regressions(case, ev);
+    }
+    if case % 1500 == 7 {
+        let mut rng = Rng::derive(ctx.seed, "C04-deep", case);
+        let depth = if ctx.tier == crate::Tier::Thorough { 30_000 + rng.below(50_000) } else { 10_000 + rng.below(15_000) };
+        run_deep_chain(case, &mut rng, ev, depth);
+        return;
     }
     let mut rng = Rng::derive(ctx.seed, "C04", case);
     rng.big = ctx.tier == crate::Tier::Thorough && rng.chance(0.2);
